@@ -563,8 +563,13 @@ func (s *Store) gcIndex(ctx context.Context) error {
 		subject := &desc
 		for {
 			verifhook.AtKey("oci.gcIndex.subjectStep", desc.Digest.String())
-			subject, err := manifestutil.Subject(ctx, s.storage, *subject)
+			var err error
+			subject, err = manifestutil.Subject(ctx, s.storage, *subject)
 			if err != nil {
+				if errors.Is(err, errdef.ErrNotFound) {
+					// the chain is broken, desc cannot reach the existing graph
+					break
+				}
 				return err
 			}
 			if subject == nil {
